@@ -249,6 +249,14 @@ func init() {
 			if p.blocked {
 				mn := max(1, nw)
 				lw := e.lwv(mn)
+				// Dormlq's doc comment states the minimum the other way round ("lwork >=
+				// m if side == blas.Left and lwork >= n if side == blas.Right"); the code
+				// (and reference DORMLQ) want n for Left, m for Right. A third of the
+				// minimal-lwork cases follow the doc comment, under their own key.
+				if p.name == "Dormlq" && e.c.Fault == "" && !e.discover && !e.query() && e.c.LW == 0 && e.c.Fl[3]%3 == 0 && max(1, nq) < mn {
+					lw = max(1, nq)
+					e.tag = "/documented-min-lwork"
+				}
 				work := e.work(lw)
 				chk := nz && !e.query()
 				e.run(func() {
@@ -286,7 +294,14 @@ func init() {
 		ldc := max(1, n) + e.pad(0)
 		v := e.f64("v", 1+(lenV-1)*abs(incv))
 		c := e.mat("c", m, n, ldc)
-		work := e.f64("work", lenW) // the code (and reference LAPACK) want n for Left, m for Right; the doc comment has them swapped
+		// the code (and reference DLARF) want len(work) >= n for Left, m for Right;
+		// the doc comment has them swapped. A third of the exactly-minimal cases
+		// follow the doc comment, under their own key.
+		if e.c.Fault == "" && !e.discover && e.c.X == 0 && e.c.Fl[3]%3 == 0 && lenV < lenW {
+			lenW = lenV
+			e.tag = "/documented-work-length"
+		}
+		work := e.f64("work", lenW)
 		chk := m > 0 && n > 0
 		e.run(func() {
 			impl.Dlarf(fside, e.fdim("m", m), e.fdim("n", n), fs(e, "shortV", v, chk), e.fint("incv", incv, 0, true), 0.75, fs(e, "shortC", c, chk), e.fld("ldc", ldc, max(1, n)), fs(e, "shortWork", work, chk))
